@@ -2,8 +2,8 @@ import NetVerif.Proofs.Lemmas.DnsNames
 /-!
 Message-level round trip for C36: every `packX` of the writer, run at the end of a buffer `msg`
 under the compression invariant, produces bytes that the corresponding `unpackX` reads back -
-wherever more bytes follow - or (only with compression) `Name.unpack` stops with
-`errTooManyPtr`.
+wherever more bytes follow (since the `ptr-depth` repair also with compression: the packer
+never builds a pointer chain longer than the unpacker's budget).
 -/
 namespace NetVerif.Proofs.DnsMsg
 open NetVerif.Model.Dns NetVerif.Proofs.Dns NetVerif.Proofs.C36
@@ -19,38 +19,25 @@ theorem CompInvOpt.append {msg : Bytes} {c : Option CompMap} (h : CompInvOpt msg
   | none => trivial
   | some m => exact CompInv.append h ext
 
-/-- `r` is the expected value, or - unless `strict` - the reader hit the pointer budget. -/
-def Agrees {α : Type} (strict : Bool) (r : Except Err α) (x : α) : Prop :=
-  r = .ok x ∨ (strict = false ∧ r = .error .tooManyPtr)
-
-theorem Agrees.weaken {α : Type} {r : Except Err α} {x : α} (h : Agrees true r x) (s : Bool) : Agrees s r x := by
-  rcases h with h | ⟨h, _⟩
-  · exact Or.inl h
-  · cases h
-
 /-- `Name.pack` at the end of `msg`, in inversion form. -/
 theorem packName_spec (msg n bs : Bytes) (comp comp' : Option CompMap)
     (hinv : CompInvOpt msg comp) (hc : Canonical n)
-    (hp : packName n msg.length comp = .ok (bs, comp')) :
+    (hp : packName n msg comp = .ok (bs, comp')) :
     comp'.isNone = comp.isNone ∧ CompInvOpt (msg ++ bs) comp' ∧
-    ∀ post, Agrees comp.isNone (unpackName (msg ++ bs ++ post) msg.length) (n, msg.length + bs.length) := by
+    ∀ post, unpackName (msg ++ bs ++ post) msg.length = .ok (n, msg.length + bs.length) := by
   cases comp with
   | none =>
-    rcases name_roundtrip_nocomp n msg.length hc with ⟨bs0, hp0, hu⟩
+    rcases name_roundtrip_nocomp n msg hc with ⟨bs0, hp0, hu⟩
     rw [hp0] at hp
     simp only [Except.ok.injEq, Prod.mk.injEq] at hp
     rcases hp with ⟨rfl, rfl⟩
-    exact ⟨rfl, trivial, fun post => Or.inl (hu msg post)⟩
+    exact ⟨rfl, trivial, fun post => hu msg post⟩
   | some m =>
-    rcases name_roundtrip_comp msg m n hinv hc with ⟨bs0, m', d, hp0, hinv', hu⟩
+    rcases name_roundtrip_comp msg m n hinv hc with ⟨bs0, m', hp0, hinv', hu⟩
     rw [hp0] at hp
     simp only [Except.ok.injEq, Prod.mk.injEq] at hp
     rcases hp with ⟨rfl, rfl⟩
-    refine ⟨rfl, hinv', fun post => ?_⟩
-    rw [hu post]
-    by_cases h10 : d ≤ 10
-    · left; simp [h10]
-    · right; simp [h10]
+    exact ⟨rfl, hinv', hu⟩
 
 theorem u16At_drop {F : Bytes} {off v : Nat} {rest : Bytes} (h : F.drop off = u16 v ++ rest)
     (hv : v < 65536) : u16At F off = .ok (v, off + 2) := by
@@ -72,11 +59,11 @@ def WFQuestion (q : Question) : Prop := Canonical q.name ∧ q.typ < 65536 ∧ q
 
 theorem packQuestion_spec (msg bs : Bytes) (q : Question) (comp comp' : Option CompMap)
     (hinv : CompInvOpt msg comp) (hwf : WFQuestion q)
-    (hp : packQuestion q msg.length comp = .ok (bs, comp')) :
+    (hp : packQuestion q msg comp = .ok (bs, comp')) :
     comp'.isNone = comp.isNone ∧ CompInvOpt (msg ++ bs) comp' ∧
-    ∀ post, Agrees comp.isNone (unpackQuestion (msg ++ bs ++ post) msg.length) (q, msg.length + bs.length) := by
+    ∀ post, unpackQuestion (msg ++ bs ++ post) msg.length = .ok (q, msg.length + bs.length) := by
   unfold packQuestion at hp
-  cases hn : packName q.name msg.length comp with
+  cases hn : packName q.name msg comp with
   | error e => rw [hn] at hp; simp at hp
   | ok res =>
     rcases res with ⟨nb, c1⟩
@@ -90,19 +77,16 @@ theorem packQuestion_spec (msg bs : Bytes) (q : Question) (comp comp' : Option C
     · have hF : msg ++ (nb ++ u16 q.typ ++ u16 q.cls) ++ post = msg ++ nb ++ (u16 q.typ ++ u16 q.cls ++ post) := by
         simp
       rw [hF]
-      rcases hread (u16 q.typ ++ u16 q.cls ++ post) with hok | ⟨hs, herr⟩
-      · left
-        have h1 : u16At (msg ++ nb ++ (u16 q.typ ++ u16 q.cls ++ post)) (msg.length + nb.length) =
-            .ok (q.typ, msg.length + nb.length + 2) :=
-          u16At_drop (rest := u16 q.cls ++ post) (by simp) hwf.2.1
-        have h2 : u16At (msg ++ nb ++ (u16 q.typ ++ u16 q.cls ++ post)) (msg.length + nb.length + 2) =
-            .ok (q.cls, msg.length + nb.length + 2 + 2) :=
-          u16At_drop (rest := post) (by simp [Nat.add_assoc, u16]) hwf.2.2
-        simp only [unpackQuestion, hok, h1, h2]
-        simp [u16]
-        omega
-      · right
-        exact ⟨hs, by simp only [unpackQuestion, herr]⟩
+      have hok := hread (u16 q.typ ++ u16 q.cls ++ post)
+      have h1 : u16At (msg ++ nb ++ (u16 q.typ ++ u16 q.cls ++ post)) (msg.length + nb.length) =
+          .ok (q.typ, msg.length + nb.length + 2) :=
+        u16At_drop (rest := u16 q.cls ++ post) (by simp) hwf.2.1
+      have h2 : u16At (msg ++ nb ++ (u16 q.typ ++ u16 q.cls ++ post)) (msg.length + nb.length + 2) =
+          .ok (q.cls, msg.length + nb.length + 2 + 2) :=
+        u16At_drop (rest := post) (by simp [Nat.add_assoc, u16]) hwf.2.2
+      simp only [unpackQuestion, hok, h1, h2]
+      simp [u16]
+      omega
 
 /-! ## Resource bodies -/
 
@@ -113,17 +97,9 @@ theorem bytesAt_append (msg bs post : Bytes) :
   simp only [h1, if_false]
   rw [List.append_assoc, List.drop_left, List.take_left' rfl]
 
-theorem nameOnly_of_agrees {s : Bool} {F : Bytes} {off : Nat} {n : Bytes} {o : Nat}
-    (h : Agrees s (unpackName F off) (n, o)) : Agrees s (nameOnly F off) n := by
-  rcases h with h | ⟨hs, h⟩
-  · left; simp [nameOnly, h]
-  · right; exact ⟨hs, by simp [nameOnly, h]⟩
-
-theorem Agrees.map {α β : Type} {s : Bool} {r : Except Err α} {x : α} (f : α → β)
-    (h : Agrees s r x) : Agrees s (r.map f) (f x) := by
-  rcases h with h | ⟨hs, h⟩
-  · left; rw [h]; rfl
-  · right; exact ⟨hs, by rw [h]; rfl⟩
+theorem nameOnly_of_ok {F : Bytes} {off : Nat} {n : Bytes} {o : Nat}
+    (h : unpackName F off = .ok (n, o)) : nameOnly F off = .ok n := by
+  simp [nameOnly, h]
 
 /-- TXT: the loop of `unpackTXTResource` reads back what `packText` wrote. -/
 theorem txtLoop_spec : ∀ (ss : List Bytes) (bs : Bytes), packTexts ss = .ok bs →
@@ -225,6 +201,8 @@ theorem optLoop_spec : ∀ (opts : List (Nat × Bytes)), WFPairs16 opts →
         exact this
       have h3 : ¬ ((pre ++ packOpts ((code, data) :: opts) ++ post).length - (pre.length + 2 + 2) < data.length) := by
         simp [packOpts, u16]; omega
+      have h3' : ¬ (pre.length + 2 + 2 + data.length > pre.length + (packOpts ((code, data) :: opts)).length) := by
+        simp [packOpts, u16]; omega
       have h4 : ((pre ++ packOpts ((code, data) :: opts) ++ post).drop (pre.length + 2 + 2)).take data.length = data := by
         have : (pre ++ packOpts ((code, data) :: opts) ++ post).drop (pre.length + 2 + 2) =
             data ++ (packOpts opts ++ post) := by
@@ -240,7 +218,7 @@ theorem optLoop_spec : ∀ (opts : List (Nat × Bytes)), WFPairs16 opts →
           (pre ++ u16 code ++ u16 (data.length % 65536) ++ data).length + (packOpts opts).length := by
         simp [packOpts, u16]; omega
       unfold optLoop
-      simp only [hlt, if_true, h1, h2, h3, if_false, h4]
+      simp only [hlt, if_true, h1, h2, h3', h3, if_false, h4]
       rw [hoff, hend, hF, hrec]
 
 theorem packOpts_length : ∀ (opts : List (Nat × Bytes)), opts.length ≤ (packOpts opts).length := by
@@ -352,7 +330,7 @@ theorem svcb_spec (msg bb : Bytes) (prio : Nat) (target : Bytes) (ps : List (Nat
     ∀ post, unpackSVCB (msg ++ bb ++ post) msg.length bb.length = .ok (prio, target, ps) := by
   intro post
   unfold packSVCB at hp
-  rcases name_roundtrip_nocomp target 0 hc with ⟨tb, htp, htu⟩
+  rcases name_roundtrip_nocomp target [] hc with ⟨tb, htp, htu⟩
   rw [htp] at hp
   simp only [] at hp
   cases hpp : packParams none ps with
@@ -406,27 +384,27 @@ def WFBody : Body → Prop
 
 theorem packBody_name_spec (msg bb n : Bytes) (comp comp' : Option CompMap) (mk : Bytes → Body) (typ : Nat)
     (hinv : CompInvOpt msg comp) (hc : Canonical n)
-    (hp : packName n msg.length comp = .ok (bb, comp'))
+    (hp : packName n msg comp = .ok (bb, comp'))
     (hun : ∀ F off len, unpackBody F off typ len = (nameOnly F off).map mk) :
     comp'.isNone = comp.isNone ∧ CompInvOpt (msg ++ bb) comp' ∧
-    ∀ post, Agrees comp.isNone (unpackBody (msg ++ bb ++ post) msg.length typ bb.length) (mk n) := by
+    ∀ post, unpackBody (msg ++ bb ++ post) msg.length typ bb.length = .ok (mk n) := by
   rcases packName_spec msg n bb comp comp' hinv hc hp with ⟨h1, h2, h3⟩
   refine ⟨h1, h2, fun post => ?_⟩
-  rw [hun]
-  exact (nameOnly_of_agrees (h3 post)).map mk
+  rw [hun, nameOnly_of_ok (h3 post)]
+  rfl
 
 /-- **Every resource body**: `ResourceBody.pack` at the end of `msg`, then `unpackResourceBody`
 with the packed length, gives the body back. -/
 theorem packBody_spec (msg bb : Bytes) (b : Body) (comp comp' : Option CompMap)
     (hinv : CompInvOpt msg comp) (hwf : WFBody b)
-    (hp : packBody b msg.length comp = .ok (bb, comp')) :
+    (hp : packBody b msg comp = .ok (bb, comp')) :
     comp'.isNone = comp.isNone ∧ CompInvOpt (msg ++ bb) comp' ∧
-    ∀ post, Agrees comp.isNone (unpackBody (msg ++ bb ++ post) msg.length b.realType bb.length) b := by
+    ∀ post, unpackBody (msg ++ bb ++ post) msg.length b.realType bb.length = .ok b := by
   cases b with
   | a ip =>
     simp only [packBody, Except.ok.injEq, Prod.mk.injEq] at hp
     rcases hp with ⟨rfl, rfl⟩
-    refine ⟨rfl, hinv.append _, fun post => Or.inl ?_⟩
+    refine ⟨rfl, hinv.append _, fun post => ?_⟩
     have := bytesAt_append msg ip post
     simp only [WFBody] at hwf
     rw [hwf] at this
@@ -435,7 +413,7 @@ theorem packBody_spec (msg bb : Bytes) (b : Body) (comp comp' : Option CompMap)
   | aaaa ip =>
     simp only [packBody, Except.ok.injEq, Prod.mk.injEq] at hp
     rcases hp with ⟨rfl, rfl⟩
-    refine ⟨rfl, hinv.append _, fun post => Or.inl ?_⟩
+    refine ⟨rfl, hinv.append _, fun post => ?_⟩
     have := bytesAt_append msg ip post
     simp only [WFBody] at hwf
     rw [hwf] at this
@@ -452,9 +430,7 @@ theorem packBody_spec (msg bb : Bytes) (b : Body) (comp comp' : Option CompMap)
       (by intro F off len; simp [unpackBody])
   | mx pref n =>
     simp only [packBody] at hp
-    have hpos : msg.length + 2 = (msg ++ u16 pref).length := by simp [u16]
-    rw [hpos] at hp
-    cases hn : packName n (msg ++ u16 pref).length comp with
+    cases hn : packName n (msg ++ u16 pref) comp with
     | error e => rw [hn] at hp; simp at hp
     | ok res =>
       rcases res with ⟨nb, c1⟩
@@ -463,16 +439,14 @@ theorem packBody_spec (msg bb : Bytes) (b : Body) (comp comp' : Option CompMap)
       rcases hp with ⟨rfl, rfl⟩
       rcases packName_spec (msg ++ u16 pref) n nb comp c1 (hinv.append _) hwf.2 hn with ⟨h1, h2, h3⟩
       refine ⟨h1, by simpa [List.append_assoc] using h2, fun post => ?_⟩
+      have hpos : msg.length + 2 = (msg ++ u16 pref).length := by simp [u16]
       have hF : msg ++ (u16 pref ++ nb) ++ post = msg ++ u16 pref ++ nb ++ post := by simp
       have hu : u16At (msg ++ (u16 pref ++ nb) ++ post) msg.length = .ok (pref, msg.length + 2) :=
         u16At_drop (rest := nb ++ post) (by simp) hwf.1
-      have hr := nameOnly_of_agrees (h3 post)
+      have hr := nameOnly_of_ok (h3 post)
       rw [← hF, ← hpos] at hr
-      simp only [unpackBody, Body.realType, typeMX]
-      simp only [show ¬ ((15 : Nat) = 1) by decide, show ¬ ((15 : Nat) = 2) by decide,
-        show ¬ ((15 : Nat) = 5) by decide, show ¬ ((15 : Nat) = 6) by decide,
-        show ¬ ((15 : Nat) = 12) by decide, if_false, if_true, hu]
-      exact hr.map (Body.mx pref)
+      simp only [unpackBody, Body.realType, typeMX, Nat.reduceEqDiff, reduceIte, hu, hr]
+      rfl
   | txt ss =>
     simp only [packBody] at hp
     cases ht : packTexts ss with
@@ -481,7 +455,7 @@ theorem packBody_spec (msg bb : Bytes) (b : Body) (comp comp' : Option CompMap)
       rw [ht] at hp
       simp only [Except.ok.injEq, Prod.mk.injEq] at hp
       rcases hp with ⟨rfl, rfl⟩
-      refine ⟨rfl, hinv.append _, fun post => Or.inl ?_⟩
+      refine ⟨rfl, hinv.append _, fun post => ?_⟩
       have := txtLoop_spec ss bs ht msg post 0 bs.length (bs.length + 1) (by simp)
         (by have := packTexts_length ss bs ht; omega)
       simp only [unpackBody, Body.realType, typeTXT, Nat.reduceEqDiff, reduceIte]
@@ -489,15 +463,14 @@ theorem packBody_spec (msg bb : Bytes) (b : Body) (comp comp' : Option CompMap)
   | soa ns mbox a b c d e =>
     rcases hwf with ⟨hc1, hc2, ha, hb, hcc, hd, he⟩
     simp only [packBody] at hp
-    cases hn1 : packName ns msg.length comp with
+    cases hn1 : packName ns msg comp with
     | error e => rw [hn1] at hp; simp at hp
     | ok res1 =>
       rcases res1 with ⟨b1, c1⟩
       rw [hn1] at hp
       simp only [] at hp
       have hpos : msg.length + b1.length = (msg ++ b1).length := by simp
-      rw [hpos] at hp
-      cases hn2 : packName mbox (msg ++ b1).length c1 with
+      cases hn2 : packName mbox (msg ++ b1) c1 with
       | error e => rw [hn2] at hp; simp at hp
       | ok res2 =>
         rcases res2 with ⟨b2, c2⟩
@@ -509,8 +482,7 @@ theorem packBody_spec (msg bb : Bytes) (b : Body) (comp comp' : Option CompMap)
         refine ⟨by rw [k1, g1], ?_, fun post => ?_⟩
         · have := k2.append (u32 a ++ u32 b ++ u32 c ++ u32 d ++ u32 e)
           simpa [List.append_assoc] using this
-        · rw [g1] at k3
-          have hF : msg ++ (b1 ++ b2 ++ u32 a ++ u32 b ++ u32 c ++ u32 d ++ u32 e) ++ post =
+        · have hF : msg ++ (b1 ++ b2 ++ u32 a ++ u32 b ++ u32 c ++ u32 d ++ u32 e) ++ post =
               msg ++ b1 ++ (b2 ++ u32 a ++ u32 b ++ u32 c ++ u32 d ++ u32 e ++ post) := by simp
           have hF2 : msg ++ (b1 ++ b2 ++ u32 a ++ u32 b ++ u32 c ++ u32 d ++ u32 e) ++ post =
               msg ++ b1 ++ b2 ++ (u32 a ++ u32 b ++ u32 c ++ u32 d ++ u32 e ++ post) := by simp
@@ -518,38 +490,30 @@ theorem packBody_spec (msg bb : Bytes) (b : Body) (comp comp' : Option CompMap)
           have r2 := k3 (u32 a ++ u32 b ++ u32 c ++ u32 d ++ u32 e ++ post)
           rw [← hF] at r1
           rw [← hF2, ← hpos] at r2
-          simp only [unpackBody, Body.realType, typeSOA]
-          simp only [show ¬ ((6 : Nat) = 1) by decide, show ¬ ((6 : Nat) = 2) by decide,
-            show ¬ ((6 : Nat) = 5) by decide, if_false, if_true]
-          rcases r1 with r1 | ⟨hs, r1⟩
-          · rcases r2 with r2 | ⟨hs, r2⟩
-            · left
-              have u1 : u32At (msg ++ (b1 ++ b2 ++ u32 a ++ u32 b ++ u32 c ++ u32 d ++ u32 e) ++ post)
-                  (msg.length + b1.length + b2.length) = .ok (a, msg.length + b1.length + b2.length + 4) :=
-                u32At_drop (rest := u32 b ++ u32 c ++ u32 d ++ u32 e ++ post) (by simp [Nat.add_assoc]) ha
-              have u2 : u32At (msg ++ (b1 ++ b2 ++ u32 a ++ u32 b ++ u32 c ++ u32 d ++ u32 e) ++ post)
-                  (msg.length + b1.length + b2.length + 4) = .ok (b, msg.length + b1.length + b2.length + 4 + 4) :=
-                u32At_drop (rest := u32 c ++ u32 d ++ u32 e ++ post) (by simp [Nat.add_assoc, u32]) hb
-              have u3 : u32At (msg ++ (b1 ++ b2 ++ u32 a ++ u32 b ++ u32 c ++ u32 d ++ u32 e) ++ post)
-                  (msg.length + b1.length + b2.length + 4 + 4) = .ok (c, msg.length + b1.length + b2.length + 4 + 4 + 4) :=
-                u32At_drop (rest := u32 d ++ u32 e ++ post) (by simp [Nat.add_assoc, u32]) hcc
-              have u4 : u32At (msg ++ (b1 ++ b2 ++ u32 a ++ u32 b ++ u32 c ++ u32 d ++ u32 e) ++ post)
-                  (msg.length + b1.length + b2.length + 4 + 4 + 4) = .ok (d, msg.length + b1.length + b2.length + 4 + 4 + 4 + 4) :=
-                u32At_drop (rest := u32 e ++ post) (by simp [Nat.add_assoc, u32]) hd
-              have u5 : u32At (msg ++ (b1 ++ b2 ++ u32 a ++ u32 b ++ u32 c ++ u32 d ++ u32 e) ++ post)
-                  (msg.length + b1.length + b2.length + 4 + 4 + 4 + 4) = .ok (e, msg.length + b1.length + b2.length + 4 + 4 + 4 + 4 + 4) :=
-                u32At_drop (rest := post) (by simp [Nat.add_assoc, u32]) he
-              simp only [r1, r2, u1, u2, u3, u4, u5]
-            · right; exact ⟨hs, by simp only [r1, r2]⟩
-          · right; exact ⟨hs, by simp only [r1]⟩
+          have u1 : u32At (msg ++ (b1 ++ b2 ++ u32 a ++ u32 b ++ u32 c ++ u32 d ++ u32 e) ++ post)
+              (msg.length + b1.length + b2.length) = .ok (a, msg.length + b1.length + b2.length + 4) :=
+            u32At_drop (rest := u32 b ++ u32 c ++ u32 d ++ u32 e ++ post) (by simp [Nat.add_assoc]) ha
+          have u2 : u32At (msg ++ (b1 ++ b2 ++ u32 a ++ u32 b ++ u32 c ++ u32 d ++ u32 e) ++ post)
+              (msg.length + b1.length + b2.length + 4) = .ok (b, msg.length + b1.length + b2.length + 4 + 4) :=
+            u32At_drop (rest := u32 c ++ u32 d ++ u32 e ++ post) (by simp [Nat.add_assoc, u32]) hb
+          have u3 : u32At (msg ++ (b1 ++ b2 ++ u32 a ++ u32 b ++ u32 c ++ u32 d ++ u32 e) ++ post)
+              (msg.length + b1.length + b2.length + 4 + 4) = .ok (c, msg.length + b1.length + b2.length + 4 + 4 + 4) :=
+            u32At_drop (rest := u32 d ++ u32 e ++ post) (by simp [Nat.add_assoc, u32]) hcc
+          have u4 : u32At (msg ++ (b1 ++ b2 ++ u32 a ++ u32 b ++ u32 c ++ u32 d ++ u32 e) ++ post)
+              (msg.length + b1.length + b2.length + 4 + 4 + 4) = .ok (d, msg.length + b1.length + b2.length + 4 + 4 + 4 + 4) :=
+            u32At_drop (rest := u32 e ++ post) (by simp [Nat.add_assoc, u32]) hd
+          have u5 : u32At (msg ++ (b1 ++ b2 ++ u32 a ++ u32 b ++ u32 c ++ u32 d ++ u32 e) ++ post)
+              (msg.length + b1.length + b2.length + 4 + 4 + 4 + 4) = .ok (e, msg.length + b1.length + b2.length + 4 + 4 + 4 + 4 + 4) :=
+            u32At_drop (rest := post) (by simp [Nat.add_assoc, u32]) he
+          simp only [unpackBody, Body.realType, typeSOA, Nat.reduceEqDiff, reduceIte, r1, r2, u1, u2, u3, u4, u5]
   | srv p w port t =>
     rcases hwf with ⟨hp1, hw1, hport, hc⟩
     simp only [packBody] at hp
-    rcases name_roundtrip_nocomp t (msg.length + 6) hc with ⟨tb, htp, htu⟩
+    rcases name_roundtrip_nocomp t (msg ++ u16 p ++ u16 w ++ u16 port) hc with ⟨tb, htp, htu⟩
     rw [htp] at hp
     simp only [Except.ok.injEq, Prod.mk.injEq] at hp
     rcases hp with ⟨rfl, rfl⟩
-    refine ⟨rfl, hinv.append _, fun post => Or.inl ?_⟩
+    refine ⟨rfl, hinv.append _, fun post => ?_⟩
     have u1 : u16At (msg ++ (u16 p ++ u16 w ++ u16 port ++ tb) ++ post) msg.length = .ok (p, msg.length + 2) :=
       u16At_drop (rest := u16 w ++ u16 port ++ tb ++ post) (by simp) hp1
     have u2 : u16At (msg ++ (u16 p ++ u16 w ++ u16 port ++ tb) ++ post) (msg.length + 2) = .ok (w, msg.length + 2 + 2) :=
@@ -569,7 +533,7 @@ theorem packBody_spec (msg bb : Bytes) (b : Body) (comp comp' : Option CompMap)
   | opt opts =>
     simp only [packBody, Except.ok.injEq, Prod.mk.injEq] at hp
     rcases hp with ⟨rfl, rfl⟩
-    refine ⟨rfl, hinv.append _, fun post => Or.inl ?_⟩
+    refine ⟨rfl, hinv.append _, fun post => ?_⟩
     have := optLoop_spec opts hwf msg post ((msg ++ packOpts opts ++ post).length + 1)
       (by have := packOpts_length opts; simp; omega)
     simp only [unpackBody, Body.realType, typeOPT, Nat.reduceEqDiff, reduceIte]
@@ -583,7 +547,7 @@ theorem packBody_spec (msg bb : Bytes) (b : Body) (comp comp' : Option CompMap)
       rw [hs] at hp
       simp only [Except.ok.injEq, Prod.mk.injEq] at hp
       rcases hp with ⟨rfl, rfl⟩
-      refine ⟨rfl, hinv.append _, fun post => Or.inl ?_⟩
+      refine ⟨rfl, hinv.append _, fun post => ?_⟩
       have := svcb_spec msg bs p t ps hp1 hc hps hs post
       simp only [unpackBody, Body.realType, typeSVCB, Nat.reduceEqDiff, reduceIte]
       rw [this]; rfl
@@ -596,14 +560,14 @@ theorem packBody_spec (msg bb : Bytes) (b : Body) (comp comp' : Option CompMap)
       rw [hs] at hp
       simp only [Except.ok.injEq, Prod.mk.injEq] at hp
       rcases hp with ⟨rfl, rfl⟩
-      refine ⟨rfl, hinv.append _, fun post => Or.inl ?_⟩
+      refine ⟨rfl, hinv.append _, fun post => ?_⟩
       have := svcb_spec msg bs p t ps hp1 hc hps hs post
       simp only [unpackBody, Body.realType, typeHTTPS, Nat.reduceEqDiff, reduceIte]
       rw [this]; rfl
   | unknown t data =>
     simp only [packBody, Except.ok.injEq, Prod.mk.injEq] at hp
     rcases hp with ⟨rfl, rfl⟩
-    refine ⟨rfl, hinv.append _, fun post => Or.inl ?_⟩
+    refine ⟨rfl, hinv.append _, fun post => ?_⟩
     have := bytesAt_append msg data post
     simp only [WFBody, knownTypes] at hwf
     have hk := hwf.2
@@ -626,51 +590,59 @@ theorem realType_lt {b : Body} (h : WFBody b) : b.realType < 65536 := by
 body are read back; the result is the record as `Pack` normalises it. -/
 theorem packResource_spec (msg bs : Bytes) (r : Resource) (comp comp' : Option CompMap)
     (hinv : CompInvOpt msg comp) (hwf : WFResource r)
-    (hp : packResource r msg.length comp = .ok (bs, comp')) :
+    (hp : packResource r msg comp = .ok (bs, comp')) :
     comp'.isNone = comp.isNone ∧ CompInvOpt (msg ++ bs) comp' ∧
-    ∃ len, ∀ post, Agrees comp.isNone (unpackResource (msg ++ bs ++ post) msg.length)
-      (normResource r len, msg.length + bs.length) := by
+    ∃ len, ∀ post, unpackResource (msg ++ bs ++ post) msg.length =
+      .ok (normResource r len, msg.length + bs.length) := by
   rcases hwf with ⟨hc, hcls, httl, hb⟩
   have htyp := realType_lt hb
   unfold packResource at hp
-  cases hn : packName r.hdr.name msg.length comp with
+  cases hn : packName r.hdr.name msg comp with
   | error e => rw [hn] at hp; simp at hp
   | ok res =>
     rcases res with ⟨nb, c1⟩
     rw [hn] at hp
     simp only [] at hp
-    cases hbp : packBody r.body (msg.length + nb.length + 10) c1 with
-    | error e => rw [hbp] at hp; simp at hp
+    cases hbp0 : packBody r.body (msg ++ nb ++ u16 r.body.realType ++ u16 r.hdr.cls ++ u32 r.hdr.ttl ++
+        u16 r.hdr.length) c1 with
+    | error e => rw [hbp0] at hp; simp at hp
     | ok res2 =>
       rcases res2 with ⟨bb, c2⟩
-      rw [hbp] at hp
+      rw [hbp0] at hp
       simp only [] at hp
       split at hp
       · simp at hp
       · rename_i hlen
-        simp only [Except.ok.injEq, Prod.mk.injEq] at hp
-        rcases hp with ⟨rfl, rfl⟩
-        have hlen' : bb.length < 65536 := by omega
-        rcases packName_spec msg r.hdr.name nb comp c1 hinv hc hn with ⟨g1, g2, g3⟩
-        have hpos : msg.length + nb.length + 10 =
-            (msg ++ nb ++ (u16 r.body.realType ++ u16 r.hdr.cls ++ u32 r.hdr.ttl ++ u16 bb.length)).length := by
-          simp [u16, u32]; omega
-        rw [hpos] at hbp
-        rcases packBody_spec _ bb r.body c1 c2 (g2.append _) hb hbp with ⟨k1, k2, k3⟩
-        refine ⟨by rw [k1, g1], by simpa [List.append_assoc] using k2, bb.length, fun post => ?_⟩
-        rw [g1] at k3
-        have hF : msg ++ (nb ++ u16 r.body.realType ++ u16 r.hdr.cls ++ u32 r.hdr.ttl ++ u16 bb.length ++ bb) ++ post =
-            msg ++ nb ++ (u16 r.body.realType ++ u16 r.hdr.cls ++ u32 r.hdr.ttl ++ u16 bb.length ++ bb ++ post) := by
-          simp
-        have hF2 : msg ++ (nb ++ u16 r.body.realType ++ u16 r.hdr.cls ++ u32 r.hdr.ttl ++ u16 bb.length ++ bb) ++ post =
-            msg ++ nb ++ (u16 r.body.realType ++ u16 r.hdr.cls ++ u32 r.hdr.ttl ++ u16 bb.length) ++ bb ++ post := by
-          simp
-        have r1 := g3 (u16 r.body.realType ++ u16 r.hdr.cls ++ u32 r.hdr.ttl ++ u16 bb.length ++ bb ++ post)
-        have r2 := k3 post
-        rw [← hF] at r1
-        rw [← hF2, ← hpos] at r2
-        rcases r1 with r1 | ⟨hs, r1⟩
-        · have u1 : u16At (msg ++ (nb ++ u16 r.body.realType ++ u16 r.hdr.cls ++ u32 r.hdr.ttl ++ u16 bb.length ++ bb) ++ post)
+        split at hp
+        · simp at hp
+        · rename_i hsame
+          have hbp : packBody r.body (msg ++ nb ++ u16 r.body.realType ++ u16 r.hdr.cls ++ u32 r.hdr.ttl ++
+              u16 bb.length) c1 = .ok (bb, c2) := by
+            simpa using hsame
+          simp only [Except.ok.injEq, Prod.mk.injEq] at hp
+          rcases hp with ⟨rfl, rfl⟩
+          have hlen' : bb.length < 65536 := by omega
+          rcases packName_spec msg r.hdr.name nb comp c1 hinv hc hn with ⟨g1, g2, g3⟩
+          have hpos : msg.length + nb.length + 10 =
+              (msg ++ nb ++ u16 r.body.realType ++ u16 r.hdr.cls ++ u32 r.hdr.ttl ++ u16 bb.length).length := by
+            simp [u16, u32]; omega
+          have hinvB : CompInvOpt (msg ++ nb ++ u16 r.body.realType ++ u16 r.hdr.cls ++ u32 r.hdr.ttl ++
+              u16 bb.length) c1 := by
+            have := g2.append (u16 r.body.realType ++ u16 r.hdr.cls ++ u32 r.hdr.ttl ++ u16 bb.length)
+            simpa [List.append_assoc] using this
+          rcases packBody_spec _ bb r.body c1 c2 hinvB hb hbp with ⟨k1, k2, k3⟩
+          refine ⟨by rw [k1, g1], by simpa [List.append_assoc] using k2, bb.length, fun post => ?_⟩
+          have hF : msg ++ (nb ++ u16 r.body.realType ++ u16 r.hdr.cls ++ u32 r.hdr.ttl ++ u16 bb.length ++ bb) ++ post =
+              msg ++ nb ++ (u16 r.body.realType ++ u16 r.hdr.cls ++ u32 r.hdr.ttl ++ u16 bb.length ++ bb ++ post) := by
+            simp
+          have hF2 : msg ++ (nb ++ u16 r.body.realType ++ u16 r.hdr.cls ++ u32 r.hdr.ttl ++ u16 bb.length ++ bb) ++ post =
+              msg ++ nb ++ u16 r.body.realType ++ u16 r.hdr.cls ++ u32 r.hdr.ttl ++ u16 bb.length ++ bb ++ post := by
+            simp
+          have r1 := g3 (u16 r.body.realType ++ u16 r.hdr.cls ++ u32 r.hdr.ttl ++ u16 bb.length ++ bb ++ post)
+          have r2 := k3 post
+          rw [← hF] at r1
+          rw [← hF2, ← hpos] at r2
+          have u1 : u16At (msg ++ (nb ++ u16 r.body.realType ++ u16 r.hdr.cls ++ u32 r.hdr.ttl ++ u16 bb.length ++ bb) ++ post)
               (msg.length + nb.length) = .ok (r.body.realType, msg.length + nb.length + 2) :=
             u16At_drop (rest := u16 r.hdr.cls ++ u32 r.hdr.ttl ++ u16 bb.length ++ bb ++ post) (by simp) htyp
           have u2 : u16At (msg ++ (nb ++ u16 r.body.realType ++ u16 r.hdr.cls ++ u32 r.hdr.ttl ++ u16 bb.length ++ bb) ++ post)
@@ -684,43 +656,35 @@ theorem packResource_spec (msg bs : Bytes) (r : Resource) (comp comp' : Option C
             u16At_drop (rest := bb ++ post) (by simp [u16, u32, Nat.add_assoc]) hlen'
           have h10 : msg.length + nb.length + 2 + 2 + 4 + 2 = msg.length + nb.length + 10 := by omega
           rw [h10] at u4
-          rcases r2 with r2 | ⟨hs, r2⟩
-          · left
-            simp only [unpackResource, unpackRHeader, r1, u1, u2, u3, u4, r2]
-            simp [normResource, u16, u32]
-            omega
-          · right
-            exact ⟨hs, by simp only [unpackResource, unpackRHeader, r1, u1, u2, u3, u4, r2]⟩
-        · right
-          exact ⟨hs, by simp only [unpackResource, unpackRHeader, r1]⟩
+          simp only [unpackResource, unpackRHeader, r1, u1, u2, u3, u4, r2]
+          simp [normResource, u16, u32]
+          omega
 
 /-! ## Sections -/
 
 theorem packQuestions_spec : ∀ (qs : List Question) (msg bs : Bytes) (comp comp' : Option CompMap),
     CompInvOpt msg comp → (∀ q ∈ qs, WFQuestion q) →
-    packQuestions qs msg.length comp = .ok (bs, comp') →
+    packQuestions qs msg comp = .ok (bs, comp') →
     comp'.isNone = comp.isNone ∧ CompInvOpt (msg ++ bs) comp' ∧
-    ∀ post, Agrees comp.isNone (unpackQuestions (msg ++ bs ++ post) qs.length msg.length)
-      (qs, msg.length + bs.length) := by
+    ∀ post, unpackQuestions (msg ++ bs ++ post) qs.length msg.length = .ok (qs, msg.length + bs.length) := by
   intro qs
   induction qs with
   | nil =>
     intro msg bs comp comp' hinv _ hp
     simp only [packQuestions, Except.ok.injEq, Prod.mk.injEq] at hp
     rcases hp with ⟨rfl, rfl⟩
-    exact ⟨rfl, by simpa using hinv, fun post => Or.inl (by simp [unpackQuestions])⟩
+    exact ⟨rfl, by simpa using hinv, fun post => by simp [unpackQuestions]⟩
   | cons q qs ih =>
     intro msg bs comp comp' hinv hwf hp
     unfold packQuestions at hp
-    cases h1 : packQuestion q msg.length comp with
+    cases h1 : packQuestion q msg comp with
     | error e => rw [h1] at hp; simp at hp
     | ok res =>
       rcases res with ⟨b1, c1⟩
       rw [h1] at hp
       simp only [] at hp
       have hpos : msg.length + b1.length = (msg ++ b1).length := by simp
-      rw [hpos] at hp
-      cases h2 : packQuestions qs (msg ++ b1).length c1 with
+      cases h2 : packQuestions qs (msg ++ b1) c1 with
       | error e => rw [h2] at hp; simp at hp
       | ok res2 =>
         rcases res2 with ⟨b2, c2⟩
@@ -730,47 +694,40 @@ theorem packQuestions_spec : ∀ (qs : List Question) (msg bs : Bytes) (comp com
         rcases packQuestion_spec msg b1 q comp c1 hinv (hwf q (by simp)) h1 with ⟨g1, g2, g3⟩
         rcases ih (msg ++ b1) b2 c1 c2 g2 (fun x hx => hwf x (by simp [hx])) h2 with ⟨k1, k2, k3⟩
         refine ⟨by rw [k1, g1], by simpa [List.append_assoc] using k2, fun post => ?_⟩
-        rw [g1] at k3
         have hF : msg ++ (b1 ++ b2) ++ post = msg ++ b1 ++ (b2 ++ post) := by simp
         have hF2 : msg ++ (b1 ++ b2) ++ post = msg ++ b1 ++ b2 ++ post := by simp
         have r1 := g3 (b2 ++ post)
         have r2 := k3 post
         rw [← hF] at r1
         rw [← hF2, ← hpos] at r2
-        rcases r1 with r1 | ⟨hs, r1⟩
-        · rcases r2 with r2 | ⟨hs, r2⟩
-          · left
-            simp only [List.length_cons, unpackQuestions, r1, r2]
-            simp; omega
-          · right; exact ⟨hs, by simp only [List.length_cons, unpackQuestions, r1, r2]⟩
-        · right; exact ⟨hs, by simp only [List.length_cons, unpackQuestions, r1]⟩
+        simp only [List.length_cons, unpackQuestions, r1, r2]
+        simp; omega
 
 theorem packResources_spec : ∀ (rs : List Resource) (msg bs : Bytes) (comp comp' : Option CompMap),
     CompInvOpt msg comp → (∀ r ∈ rs, WFResource r) →
-    packResources rs msg.length comp = .ok (bs, comp') →
+    packResources rs msg comp = .ok (bs, comp') →
     comp'.isNone = comp.isNone ∧ CompInvOpt (msg ++ bs) comp' ∧
     ∃ lens, lens.length = rs.length ∧
-      ∀ post, Agrees comp.isNone (unpackResources (msg ++ bs ++ post) rs.length msg.length)
-        (List.zipWith normResource rs lens, msg.length + bs.length) := by
+      ∀ post, unpackResources (msg ++ bs ++ post) rs.length msg.length =
+        .ok (List.zipWith normResource rs lens, msg.length + bs.length) := by
   intro rs
   induction rs with
   | nil =>
     intro msg bs comp comp' hinv _ hp
     simp only [packResources, Except.ok.injEq, Prod.mk.injEq] at hp
     rcases hp with ⟨rfl, rfl⟩
-    exact ⟨rfl, by simpa using hinv, [], rfl, fun post => Or.inl (by simp [unpackResources])⟩
+    exact ⟨rfl, by simpa using hinv, [], rfl, fun post => by simp [unpackResources]⟩
   | cons r rs ih =>
     intro msg bs comp comp' hinv hwf hp
     unfold packResources at hp
-    cases h1 : packResource r msg.length comp with
+    cases h1 : packResource r msg comp with
     | error e => rw [h1] at hp; simp at hp
     | ok res =>
       rcases res with ⟨b1, c1⟩
       rw [h1] at hp
       simp only [] at hp
       have hpos : msg.length + b1.length = (msg ++ b1).length := by simp
-      rw [hpos] at hp
-      cases h2 : packResources rs (msg ++ b1).length c1 with
+      cases h2 : packResources rs (msg ++ b1) c1 with
       | error e => rw [h2] at hp; simp at hp
       | ok res2 =>
         rcases res2 with ⟨b2, c2⟩
@@ -780,20 +737,14 @@ theorem packResources_spec : ∀ (rs : List Resource) (msg bs : Bytes) (comp com
         rcases packResource_spec msg b1 r comp c1 hinv (hwf r (by simp)) h1 with ⟨g1, g2, len, g3⟩
         rcases ih (msg ++ b1) b2 c1 c2 g2 (fun x hx => hwf x (by simp [hx])) h2 with ⟨k1, k2, lens, hl, k3⟩
         refine ⟨by rw [k1, g1], by simpa [List.append_assoc] using k2, len :: lens, by simp [hl], fun post => ?_⟩
-        rw [g1] at k3
         have hF : msg ++ (b1 ++ b2) ++ post = msg ++ b1 ++ (b2 ++ post) := by simp
         have hF2 : msg ++ (b1 ++ b2) ++ post = msg ++ b1 ++ b2 ++ post := by simp
         have r1 := g3 (b2 ++ post)
         have r2 := k3 post
         rw [← hF] at r1
         rw [← hF2, ← hpos] at r2
-        rcases r1 with r1 | ⟨hs, r1⟩
-        · rcases r2 with r2 | ⟨hs, r2⟩
-          · left
-            simp only [List.length_cons, unpackResources, r1, r2]
-            simp; omega
-          · right; exact ⟨hs, by simp only [List.length_cons, unpackResources, r1, r2]⟩
-        · right; exact ⟨hs, by simp only [List.length_cons, unpackResources, r1]⟩
+        simp only [List.length_cons, unpackResources, r1, r2]
+        simp; omega
 
 /-! ## The whole message -/
 
@@ -836,7 +787,7 @@ theorem packMessage_spec (m : Message) (comp : Option CompMap) (bytes : Bytes)
     (hwf : WFMessage m) (hp : packMessageWith m comp = .ok bytes) :
     ∃ l1 l2 l3, l1.length = m.answers.length ∧ l2.length = m.authorities.length ∧
       l3.length = m.additionals.length ∧
-      Agrees comp.isNone (unpackMessage bytes) (normMessage m l1 l2 l3) := by
+      unpackMessage bytes = .ok (normMessage m l1 l2 l3) := by
   rcases hwf with ⟨hid, hop, hrc, hq, han, hau, had⟩
   unfold packMessageWith at hp
   split at hp
@@ -851,6 +802,7 @@ theorem packMessage_spec (m : Message) (comp : Option CompMap) (bytes : Bytes)
         split at hp
         · simp at hp
         · rename_i c4
+          simp only [] at hp
           generalize hm0 : packHeader m.hdr m.questions.length m.answers.length m.authorities.length
             m.additionals.length = msg0 at hp
           have hl0 : msg0.length = 12 := by rw [← hm0]; simp [packHeader, u16]
@@ -858,32 +810,28 @@ theorem packMessage_spec (m : Message) (comp : Option CompMap) (bytes : Bytes)
             rcases hcomp with rfl | rfl
             · trivial
             · exact compInv_nil _
-          rw [← hl0] at hp
-          cases h1 : packQuestions m.questions msg0.length comp with
+          cases h1 : packQuestions m.questions msg0 comp with
           | error e => rw [h1] at hp; simp at hp
           | ok res1 =>
             rcases res1 with ⟨b1, k1⟩
             rw [h1] at hp
             simp only [] at hp
             have p1 : msg0.length + b1.length = (msg0 ++ b1).length := by simp
-            rw [p1] at hp
-            cases h2 : packResources m.answers (msg0 ++ b1).length k1 with
+            cases h2 : packResources m.answers (msg0 ++ b1) k1 with
             | error e => rw [h2] at hp; simp at hp
             | ok res2 =>
               rcases res2 with ⟨b2, k2⟩
               rw [h2] at hp
               simp only [] at hp
               have p2 : (msg0 ++ b1).length + b2.length = (msg0 ++ b1 ++ b2).length := by simp; omega
-              rw [p2] at hp
-              cases h3 : packResources m.authorities (msg0 ++ b1 ++ b2).length k2 with
+              cases h3 : packResources m.authorities (msg0 ++ b1 ++ b2) k2 with
               | error e => rw [h3] at hp; simp at hp
               | ok res3 =>
                 rcases res3 with ⟨b3, k3⟩
                 rw [h3] at hp
                 simp only [] at hp
                 have p3 : (msg0 ++ b1 ++ b2).length + b3.length = (msg0 ++ b1 ++ b2 ++ b3).length := by simp; omega
-                rw [p3] at hp
-                cases h4 : packResources m.additionals (msg0 ++ b1 ++ b2 ++ b3).length k3 with
+                cases h4 : packResources m.additionals (msg0 ++ b1 ++ b2 ++ b3) k3 with
                 | error e => rw [h4] at hp; simp at hp
                 | ok res4 =>
                   rcases res4 with ⟨b4, k4⟩
@@ -895,9 +843,6 @@ theorem packMessage_spec (m : Message) (comp : Option CompMap) (bytes : Bytes)
                   rcases packResources_spec m.authorities (msg0 ++ b1 ++ b2) b3 k2 k3 i2 hau h3 with ⟨e3, i3, l2, hl2, r3⟩
                   rcases packResources_spec m.additionals (msg0 ++ b1 ++ b2 ++ b3) b4 k3 k4 i3 had h4 with ⟨e4, i4, l3, hl3, r4⟩
                   refine ⟨l1, l2, l3, hl1, hl2, hl3, ?_⟩
-                  rw [e1] at r2
-                  rw [e2, e1] at r3
-                  rw [e3, e2, e1] at r4
                   have hw := unpackWireHeader_pack m.hdr m.questions.length m.answers.length m.authorities.length
                     m.additionals.length (b1 ++ b2 ++ b3 ++ b4) hid hrc (by omega) (by omega) (by omega) (by omega)
                   rw [hm0] at hw
@@ -916,16 +861,6 @@ theorem packMessage_spec (m : Message) (comp : Option CompMap) (bytes : Bytes)
                   rw [← hF] at hw
                   have hhdr := header_bits_roundtrip m.hdr hop hrc
                   unfold unpackMessage unpackMessageOff
-                  simp only [hw]
-                  rcases q1 with q1 | ⟨hs, q1⟩
-                  · rcases q2 with q2 | ⟨hs, q2⟩
-                    · rcases q3 with q3 | ⟨hs, q3⟩
-                      · rcases q4 with q4 | ⟨hs, q4⟩
-                        · left
-                          simp only [q1, q2, q3, q4, hhdr, normMessage]
-                        · right; exact ⟨hs, by simp only [q1, q2, q3, q4]⟩
-                      · right; exact ⟨hs, by simp only [q1, q2, q3]⟩
-                    · right; exact ⟨hs, by simp only [q1, q2]⟩
-                  · right; exact ⟨hs, by simp only [q1]⟩
+                  simp only [hw, q1, q2, q3, q4, hhdr, normMessage]
 
 end NetVerif.Proofs.DnsMsg
